@@ -286,6 +286,16 @@ def toMesh {τ α : Type} (g : Group τ α) : String × Mesh α :=
   (g.name, ⟨flatTris g.tris, optOfList g.verts, keepIfComplete g.verts.length g.uvs,
             keepIfComplete g.verts.length g.normals, g.mats.map fun (n, c) => (some n, c)⟩)
 
+/-- the material of every triangle, in order: ranges expanded -/
+def perTriangle {μ : Type} (mats : List (μ × Nat)) : List μ := mats.flatMap fun (m, c) => List.replicate c m
+
+/-- **same material on every triangle** (used for the on-disk Save → Load path, where a material is its
+    `.mtl` record): same groups, and per group the expanded ranges agree and cover `ntris` triangles -/
+def SameMaterials {μ : Type} [DecidableEq μ] (want got : List (String × Nat × List (μ × Nat))) : Bool :=
+  want.length == got.length &&
+  (want.zip got).all fun (w, g) =>
+    w.1 == g.1 && w.2.1 == g.2.1 && perTriangle w.2.2 == perTriangle g.2.2 && (perTriangle g.2.2).length == g.2.1
+
 def faceCount {τ α : Type} (ls : List (Line τ α)) : Nat :=
   (ls.filter fun l => match l with | .f _ _ _ => true | _ => false).length
 
